@@ -107,13 +107,15 @@ func shrink(t *testing.T, p *sim.Plan, sig string) *sim.Plan {
 		i := i
 		try(func(q *sim.Plan) { q.Steps[i].Delay, q.Steps[i].Dup, q.Steps[i].RespLost = 0, 0, false })
 		try(func(q *sim.Plan) { q.Steps[i].NonceUpd, q.Steps[i].NonceRec, q.Steps[i].Kid = false, false, "" })
-		if len(best.Steps[i].Patches) > 1 {
-			for len(best.Steps[i].Patches) > 1 {
-				n := len(best.Steps[i].Patches)
-				try(func(q *sim.Plan) { q.Steps[i].Patches = q.Steps[i].Patches[:len(q.Steps[i].Patches)-1] })
-				if len(best.Steps[i].Patches) == n {
-					break
-				}
+		// fewer patches: drop any single patch while the violation persists
+		for k := 0; k < len(best.Steps[i].Patches) && len(best.Steps[i].Patches) > 1; {
+			n, kk := len(best.Steps[i].Patches), k
+			try(func(q *sim.Plan) {
+				ps := q.Steps[i].Patches
+				q.Steps[i].Patches = append(append([]any{}, ps[:kk]...), ps[kk+1:]...)
+			})
+			if len(best.Steps[i].Patches) == n {
+				k++
 			}
 		}
 	}
@@ -169,7 +171,7 @@ func TestSim(t *testing.T) {
 		a.Recheck = 50
 	}
 	start := time.Now()
-	pool = sim.NewPool(0xC0FFEE, 6, 2)
+	pool = sim.PoolFor(sim.DefaultPool)
 	res := &Result{Prop: a.Prop, Counts: map[string]uint64{}, Probes: map[string]uint64{}, Faults: map[string]uint64{}}
 	defer func() {
 		res.WallS = time.Since(start).Seconds()
@@ -260,6 +262,9 @@ func TestSim(t *testing.T) {
 		res.Error = "unknown property " + a.Prop
 		return
 	}
+	if prop.Pool != nil {
+		pool = sim.PoolFor(prop.Pool(a.Tier))
+	}
 	cases := prop.Cases(a.Seed, a.Tier)
 	if a.Limit > 0 && len(cases) > a.Limit {
 		cases = cases[:a.Limit]
@@ -282,6 +287,9 @@ func TestSim(t *testing.T) {
 		p := prop.Gen(c, pool)
 		if p == nil {
 			continue
+		}
+		if prop.Pool != nil {
+			p.Pool = prop.Pool(a.Tier)
 		}
 		tr := runPlan(t, p, false)
 		if tr == nil {
